@@ -62,6 +62,8 @@ type sumRec struct {
 	Fails     []failRec      `json:"fails"`
 	Other     map[string]int `json:"other,omitempty"` // informational: non-nil run-time panics of mutants
 	Skipped   int            `json:"skipped,omitempty"`
+	CPUOk     float64        `json:"cpu_ok"`   // CPU seconds spent on conforming cases
+	CPUFail   float64        `json:"cpu_fail"` // CPU seconds spent on failing cases (incl. reduction / attribution)
 	Sample    *kase          `json:"sample,omitempty"`
 	SampleOut string         `json:"sample_out,omitempty"`
 }
@@ -81,7 +83,13 @@ func (a *acc) one(id string, fam string, mode int, src string, run bool, note st
 	if !a.w.Item(id) {
 		return
 	}
+	t0 := cpuNow()
 	v := check(src, mode, run)
+	if dt := (cpuNow() - t0).Seconds(); v.Clause == "" {
+		a.sum.CPUOk += dt
+	} else {
+		a.sum.CPUFail += dt
+	}
 	a.sum.N++
 	a.sum.Outcomes[v.Outcome]++
 	if v.Outcome == "run:other-panic" {
@@ -664,12 +672,15 @@ func main() {
 	skipped := 0
 	samples := map[string]bool{}
 	var watchdog []string
+	cpuOk, cpuFail := map[string]float64{}, map[string]float64{}
 	onRec := func(si int, rb json.RawMessage) {
 		var r sumRec
 		if json.Unmarshal(rb, &r) != nil || r.Kind != "sum" {
 			return
 		}
 		total[r.Fam] += r.N
+		cpuOk[r.Fam] += r.CPUOk
+		cpuFail[r.Fam] += r.CPUFail
 		skipped += r.Skipped
 		for o, n := range r.Outcomes {
 			outcomes[o] += int64(n)
@@ -771,6 +782,8 @@ func main() {
 	c.Set("max_fuel_per_byte", fmt.Sprintf("%.1f on %q", maxLin, maxLinSrc))
 	c.Set("other_runtime_panics_of_mutants_not_judged_here", other)
 	c.Set("worker_deaths", st1.Deaths+st2.Deaths)
+	c.Set("cpu_s_conforming_cases", cpuOk)
+	c.Set("cpu_s_failing_cases", cpuFail)
 	c.Assume("only the enumerated finite families are decided; byte strings longer than the bounds that are neither corpus mutants nor token strings, and inputs > 8 MB, are outside")
 	c.Assume("token boundaries of corpus files come from the check's own crude tokenizer (independent of origami's lexer)")
 	c.Assume("ladder workers run with Go's default 1 GiB goroutine stack limit; a ladder that needs more is a stack overflow of the real CLI too")
